@@ -317,8 +317,11 @@ def gen_program(r, engine='sqlite'):
     preds.append(('B%d' % i, 1))
   grounded = set()
   requestable = []
+  if engine == 'sqlite' and r.random() < 0.5:
+    preds.append(('Araw', 1))      # a raw data table (not defined in the program; execute_program creates it)
   n_rec = r.choice([0, 1, 1, 1, 2])
   n_der = r.randint(2, 5)
+  der_names = r.sample(['Pa', 'Pd', 'Pg', 'Pk', 'Pq', 'Pv', 'Pz'], n_der)   # not in dependency order alphabetically
   kinds = ['der'] * n_der + ['rec'] * n_rec
   r.shuffle(kinds)
   ri = di = 0
@@ -364,7 +367,7 @@ def gen_program(r, engine='sqlite'):
       preds.append((nm, 1))
       requestable.append(nm)
     else:
-      nm = 'P%d' % di
+      nm = der_names[di]
       di += 1
       a = r.choice(preds)[0]
       style = r.random()
@@ -497,6 +500,7 @@ def execute_program(cl, text, predicates, holder=None, dry=False):
   except Exception as e:  # pylint: disable=broad-except
     return logica_run.classify(e), str(e), [], []
   conn = sqlite3_logica.SqliteConnect()
+  conn.executescript('CREATE TABLE Araw (col0 INTEGER); INSERT INTO Araw VALUES (1), (2), (2), (5);')   # the raw data table
   calls = []
   engine_name = program.annotations.Engine()
 
